@@ -890,18 +890,24 @@ func checkNeutrinoProducerDiscipline(c *Ctx, rule string, parts string) {
 						}
 						// `hdr, ok := s.tryMarkFinished(bs); if !ok { return }`: a private part that answers true only
 						// after it recorded (or just computed and tested) the finished state
+						// (... or that hands back a non-nil header only then: `hdr := s.markRescanFinished(bs); if hdr == nil {`)
 						f := edgeFactOf(from, si)
-						if f == nil || f.Kind != "true" {
+						if f == nil || (f.Kind != "true" && f.Kind != "nonnil") {
 							return false
 						}
-						ex, ok := stripConv(f.V).(*ssa.Extract)
-						if !ok {
+						var hc *ssa.Call
+						var ex struct{ Index int }
+						switch x := stripConv(f.V).(type) {
+						case *ssa.Extract:
+							hc, _ = x.Tuple.(*ssa.Call)
+							ex.Index = x.Index
+						case *ssa.Call:
+							hc = x
+						}
+						if hc == nil {
 							return false
 						}
-						hc, ok := ex.Tuple.(*ssa.Call)
-						if !ok {
-							return false
-						}
+						wantNonNil := f.Kind == "nonnil"
 						h := hc.Call.StaticCallee()
 						if h == nil || len(h.Blocks) == 0 || h.Object() == nil || h.Object().Exported() || recvName(h) != "NeutrinoClient" {
 							return false
@@ -912,7 +918,11 @@ func checkNeutrinoProducerDiscipline(c *Ctx, rule string, parts string) {
 							if !ok || ex.Index >= len(r.Results) {
 								return false
 							}
-							bv, isC := constBool(effectiveResult(r, ex.Index)) // (results are spilled where the part defers its unlock)
+							rv := effectiveResult(r, ex.Index) // (results are spilled where the part defers its unlock)
+							if wantNonNil {
+								return !isNilConst(stripConv(rv))
+							}
+							bv, isC := constBool(rv)
 							return !isC || bv
 						}
 						return len(hq.From(nil)) == 0
